@@ -23,7 +23,7 @@ LEVEL_NOTE = 'trusted: CPython ast.walk / positions / tokenize; operator and com
 RULE = ('enum: case = (program, start node, parameter combination); non-trivial = distinct (program, start, combo) whose walk '
         'has >1 node; states = distinct (program, node) pairs visited; traces = walks compared with the reference order')
 ASSUMPTIONS = ['read-only; the AST objects of the tree are plain ast nodes (C05 judges that they equal ast.parse)']
-BOUNDS = {'quick': '77 programs; start nodes: root + every node; all 120 parameter combinations at every start node',
+BOUNDS = {'quick': '580 programs (86 hand-written, every arrangement of <= 4 call / class arguments, every parameter-list shape as def and lambda); start nodes: root + every node; all 120 parameter combinations at every start node',
           'thorough': 'all 120 combinations at every node + fixed corpus sweep of /repo/src/fst/*.py at the root'}
 
 TRICKY = [
